@@ -391,8 +391,21 @@ impl Group for EnfGroup {
         for _ in 0..len {
             // steer: with some probability do the "right next thing" so that long histories advance
             let e = w.estate().unwrap();
+            // scenario steering: a staged commitment with an outgoing HTLC → let its approval expire; a refused
+            // revocation → retry it, restart, force-close with the current commitment
+            let staged_out = e.next_holder_commit_info.as_ref().map(|x| !x.0.offered_htlcs.is_empty()).unwrap_or(false);
+            let last = ops.last().cloned().unwrap_or_default();
+            let last_refused_revoke = (last.starts_with("revoke ") || last.starts_with("hrevoke ")) && last.ends_with(" 0");
             let op = if w.dead {
                 "restart".to_string()
+            } else if staged_out && w.outgoing_ok(&e.next_holder_commit_info.as_ref().unwrap().0.offered_htlcs) && rng.chance(1, 3) {
+                "tick 61".to_string()
+            } else if last_refused_revoke && rng.chance(2, 3) {
+                last.clone()
+            } else if ops.len() >= 2 && last == ops[ops.len() - 2] && last_refused_revoke && rng.chance(2, 3) {
+                "restart".to_string()
+            } else if last == "restart" && staged_out && e.next_holder_commit_num >= 1 && rng.chance(1, 2) {
+                if rng.chance(1, 2) { format!("signholder {}", e.next_holder_commit_num - 1) } else { format!("hsigncommit 6 {}", e.next_holder_commit_num - 1) }
             } else if rng.chance(1, 4) {
                 if self.prop == "C03" {
                     let (cc, cr) = (e.next_counterparty_commit_num, e.next_counterparty_revoke_num);
